@@ -706,3 +706,61 @@ def noise_forwarding(ctx) -> None:
     ctx.ob("NOISE-forward", "PulserData.__init__", g.loc(), not bad,
            "the jump operators are requested with the dim and interaction_type of the HamiltonianData's basis_data"
            if not bad else f"_get_all_lindblad_noise_operators({bad[0]}) is not the basis of the sequence's HamiltonianData")
+
+
+def sv_current_hamiltonian(ctx) -> None:
+    """The generator handed to the emu-sv observables is the one of the step just taken: on *every* returning path of
+    `_evolve_step`, `self._current_H` is the second and `self.state.data` the first component of this step's
+    `stepper.apply(...)` — never None, never the previous step's.  (`_apply_observables` rebuilds a missing generator from
+    row 0 of the drives: correct only before the first step, which is the only time `_current_H` may be unset.)"""
+    prog = ctx.prog
+    K = prog.cls("emu_sv.sv_backend_impl.SVBackendImpl")
+    f = K.methods["_evolve_step"]
+    paths = [p for p in Interp(prog, K, inline=lambda c, r, d: False).run(f) if p.status == "return"]
+    ctx.require(paths, "ROLE-sv: _evolve_step has no returning path")
+    bad = None
+    for p in paths:
+        applies = [e for e in p.events if e.kind == "call" and e.name.endswith(".apply")]
+        h = strip_typed(p.heap.get((SELF, "_current_H"), ("attr", SELF, "_current_H")))
+        st = None
+        for (obj, name), v in p.heap.items():
+            if name == "data" and strip_typed(obj) == ("attr", SELF, "state"):
+                st = strip_typed(v)
+        conds = " ∧ ".join(("" if t else "¬") + show(c)[:50] for c, t in p.cond_log) or "always"
+        if len(applies) != 1:
+            bad = f"{len(applies)} stepper.apply calls on the path [{conds}]"
+            continue
+        def comp(t):
+            """(tuple-valued term, index) for `x, y = T` and for `T[k]`"""
+            if t is not None and t[0] == "unpack":
+                return strip_typed(t[1]), t[2]
+            if t is not None and t[0] == "sub" and strip_typed(t[2])[0] == "const" and isinstance(strip_typed(t[2])[1], int):
+                return strip_typed(t[1]), strip_typed(t[2])[1]
+            return None, None
+
+        hc, hi = comp(h)
+        sc, si = comp(st)
+        okh = hc is not None and hi == 1 and hc[0] == "mcall" and hc[2].endswith("apply") and strip_typed(hc[1]) == ("attr", SELF, "stepper")
+        oks = okh and sc == hc and si == 0
+        if not okh:
+            bad = f"after the step self._current_H = {show(h)[:50]} on the path [{conds}]"
+        elif not oks:
+            bad = f"after the step self.state.data = {show(st)[:50] if st else 'unchanged'} on the path [{conds}]"
+    ctx.ob("ROLE-sv", "observables see the generator of the step just taken", f.loc(), bad is None,
+           "on every path of _evolve_step: (state.data, _current_H) = this step's stepper.apply(...)" if bad is None else
+           f"_evolve_step: {bad} — observables evaluated after this step (energy, its moments, expectation of H) are computed "
+           f"with a generator that is missing (then rebuilt from the first row of the drives) or stale")
+    # the rebuild branch of _apply_observables is guarded by "no generator yet" and uses the interval of this index
+    g = K.methods["_apply_observables"]
+    gp = [p for p in Interp(prog, K, inline=lambda c, r, d: False, loop_iters=(0, 1)).run(g) if p.status == "return"]
+    rebuilt_unguarded = None
+    for p in gp:
+        for e in p.events:
+            if e.kind == "call" and e.name.endswith("get_hamiltonian"):
+                unset = any(strip_typed(c) == ("attr", SELF, "_current_H") and t is False for c, t in p.cond_log[: e.ncond]) or \
+                    any("_current_H" in show(c) and "None" in show(c) and t for c, t in p.cond_log[: e.ncond])
+                if not unset:
+                    rebuilt_unguarded = "the generator is rebuilt although one is stored"
+    ctx.ob("ROLE-sv", "rebuild only when no generator is stored", g.loc(), rebuilt_unguarded is None,
+           "_apply_observables builds a generator only under `not self._current_H`" if rebuilt_unguarded is None else
+           f"_apply_observables: {rebuilt_unguarded}")
